@@ -2,3 +2,6 @@ import Nervus.Model.Bytes
 import Nervus.Model.OKey
 import Nervus.Spec.OrderedValue
 import Nervus.Props.C27
+import Nervus.Props.C22
+import Nervus.Props.C33
+import Nervus.Props.C19
